@@ -16,6 +16,7 @@
 #include "veng.h"
 
 #include <poll.h>
+#include <sys/mman.h>
 #include <signal.h>
 
 enum mode { M_NB, M_BLK, M_MIXS, M_MIXR, M_N };
@@ -239,10 +240,24 @@ static int do_recv(struct side *s, const struct tcase *c, vrng *r)
 {
     struct vep *e = s->e;
     size_t cap = pick_cap(c, r, e->bytestream);
-    unsigned char *buf = malloc(cap);
-    memset(buf, 0xCD, cap);
+    /* now and then the application receives into a very large arena and says so: capacities at and beyond 2^31 and 2^32 (the pages are
+     * reserved, not touched) */
+    static unsigned char *arena; static const size_t arena_len = (1ull << 32) + (1u << 20);
+    bool huge = !c->volume && vrnd_p(r, 1);
+    if (huge && !arena) { arena = mmap(NULL, arena_len, PROT_READ | PROT_WRITE, MAP_PRIVATE | MAP_ANONYMOUS | MAP_NORESERVE, -1, 0); if (arena == MAP_FAILED) { arena = NULL; } }
+    if (huge && !arena) huge = false;
+    if (huge) { static const size_t hc[] = { 1ull << 31, (1ull << 31) + 5, 1ull << 32, (1ull << 32) + 100, 3ull << 30, (1ull << 32) + (1u << 20) - 300, (1ull << 32) + (1u << 20) }; cap = hc[vrnd_n(r, 7)]; vobs("receives_with_capacity_beyond_2G", 1); }
+    unsigned char *buf = huge ? arena : malloc(cap);
+    memset(buf, 0xCD, huge ? 70000 : cap);
     int rc = vx_receive(e, buf, cap);
     int se = errno;
+    if (huge) {
+        size_t n = rc > 0 ? (size_t)rc : 0;
+        if (!e->bytestream && n > 65535) { char k2[96]; snprintf(k2, sizeof k2, "delivery:over-capacity:%s", vtp_name[e->tp]); vviol(cur_case, "delivery", k2, veng_detail(ctx), "xcm_receive(capacity %zu) returned %d, more than any message holds; %s", cap, rc, ctx); n = 65535; rc = 65535; }
+        if (n > arena_len) n = arena_len;
+        unsigned char *cp = malloc(n + 1); memcpy(cp, arena, n); buf = cp;
+        cap = (size_t)1 << 31;           /* for the ledger: nothing may have been cut off */
+    }
     char key[128];
     if (rc > 0) {
         if ((size_t)rc > cap) { snprintf(key, sizeof key, "delivery:over-capacity:%s", vtp_name[e->tp]);
